@@ -572,6 +572,40 @@ def error_locations(F, rep):
     rep.count("pest_error_map_err_sites", n)
 
 
+def whitespace_between_tokens(g, rep):
+    """R9 (extra spaces or tabs between tokens): pest inserts its implicit WHITESPACE only inside NORMAL rules. An atomic (`@`) or
+    compound-atomic (`$`) rule must therefore be one lexeme; one that holds a keyword AND an operand (`${ ^"RATIO" ~ " "+ ~ ratio }`)
+    fixes the separator itself and a tab or a second kind of blank between the two is rejected (seeded change C13-s6)."""
+    n = 0
+
+    def parts(e, in_pred=False):
+        k = e["k"]
+        if k in ("pos", "neg"):
+            return
+        if k in ("str", "insens"):
+            yield ("kw" if any(ch.isalpha() for ch in e["s"]) else "lit", e["s"])
+        elif k == "ident":
+            if e["s"] in g.rules and g.emits_token(e["s"]) and e["s"] not in ("WHITESPACE", "COMMENT", "NEWLINE"):
+                yield ("tok", e["s"])
+            elif e["s"] in g.rules and g.rules[e["s"]]["ty"] == "silent" and e["s"] not in ("WHITESPACE", "COMMENT", "NEWLINE"):
+                yield from parts(g.rules[e["s"]]["expr"])
+        for x in ("a", "b", "e"):
+            if isinstance(e.get(x), dict):
+                yield from parts(e[x])
+    for name in g.order:
+        if not g.is_atomic(name):
+            continue
+        n += 1
+        ps = list(parts(g.rules[name]["expr"]))
+        kws = [s for k_, s in ps if k_ == "kw"]
+        toks = [s for k_, s in ps if k_ == "tok"]
+        ok = not (kws and toks) and len(toks) <= 1
+        rep.ob("R9", f"{name}:one-lexeme", ok, f"atomic rule `{name}` is a single lexeme" if ok else
+               f"atomic rule `{name}` spans {'keyword ' + repr(kws[0]) + ' and ' if kws else ''}token(s) {toks}: no implicit whitespace applies between them, "
+               "so tabs or repeated blanks there are rejected", "crates/cgt-core/src/parser.pest", key=f"R9:{name}:atomic-multi-token")
+    rep.count("atomic_rules", n)
+
+
 def currency_case(F, rep):
     """R8 (case of currency codes): the grammar accepts a code in any case (R3 looks at keywords, the code itself is
     ASCII_ALPHA{3}); the ISO table is upper-case, so the consumer must fold the case before the look-up — otherwise `usd` parses
@@ -600,6 +634,7 @@ def run(ctx, rep):
     g = lang_inclusion(S, rep)
     list_level(S, g, rep)
     case_and_newlines(S, g, rep)
+    whitespace_between_tokens(g, rep)
     currency_lookahead(S, g, rep)
     defaults(S, g, rep)
     parser_errors(ctx.F, rep)
